@@ -29,6 +29,7 @@ def run(ctx):
         mode = MODES[(i // len(names)) % 5]
         eps = r.choice([0.0, 2.0 ** -20, 2.0 ** -10, 1e-10, 0.125])
         fam, rows = families.build(r, name, n, floats=r.random() < 0.25, mode=mode, eps=eps)
+        n = len(rows)
         desc = dict(fam.describe(), rows=rows.tolist())
         est = fam.make()
         before = params_tree(est)
@@ -75,6 +76,7 @@ def run(ctx):
         eps = r.choice([0.0, 2.0 ** -10, 0.125])
         n = r.randint(2, nmax)
         fam, rows = families.build(r, cls, n, mode=mode, eps=eps)
+        n = len(rows)
         est = fam.make()
         vt = gen.veto_table(r, n, n + 2)
         seen = []
